@@ -84,7 +84,7 @@ def run(name, props):
         sh("git apply %s" % os.path.join(d, "patch.diff"), cwd=REPO)
         for p in props:
             t0 = time.time()
-            rc, o = sh("./check %s --tier quick" % p, cwd=ROOT)
+            rc, o = sh("VERIF_NO_EVIDENCE=1 ./check %s --tier quick" % p, cwd=ROOT)
             lines = [l.strip()[:300] for l in o.splitlines() if "rapid] failed" in l or "VERIF-FAIL" in l or l.startswith("panic:") or "WEDGE-DEFINITIVE" in l or "INCONCLUSIVE" in l or "DATA RACE" in l][:3]
             results[p] = dict(exit=rc, outcome="DETECTED" if rc == 1 else ("missed" if rc == 0 else "inconclusive"), secs=round(time.time() - t0, 1), evidence=lines)
             print(p, results[p])
